@@ -232,7 +232,7 @@ def execute(scn):
             # (judged on a client without fault history: a reset by the peer is only discovered by the next
             # transaction that uses the connection, which is the business of the follow-up clause)
             clean = all(not o.get('script') for o in ops[:call['index']])
-            if not clean:
+            if slow_end and not clean:
                 pass
             elif slow_end and j == 0 and not cc.leftover_input(res, call) and kind in ('tcp', 'serial'):
                 ok, why = cc.values_match(op, r)
